@@ -46,13 +46,15 @@ Theorem live_mono : forall ops i j s, i <= j -> live (run_prefix ops i) s -> liv
 Proof. exact StreamFrame.live_mono. Qed.
 Print Assumptions live_mono.
 
-(* the tables the model reads from the source *)
+(* the tables the model reads from the source: the attribute name, and that every operator node gets the AST of
+   the stream it is applied to (or of the stream the callbacks returned) as its FIRST argument *)
 Example tables_pinned :
   TablesStream.executor_attr_name = "_func_adl_executor"%string /\
-  map (fun x => (fst (fst x), snd (fst x), hd ""%string (snd x))) TablesStream.operator_nodes =
-    [("SelectMany", "SelectMany", "n_stream.query_ast"); ("Select", "Select", "n_stream.query_ast");
-     ("Where", "Where", "n_stream.query_ast"); ("MetaData", "MetaData", "self._q_ast")]%string.
-Proof. split; reflexivity. Qed.
+  map (fun x => (fst (fst x), snd (fst x))) TablesStream.operator_nodes =
+    [("SelectMany", "SelectMany"); ("Select", "Select"); ("Where", "Where"); ("MetaData", "MetaData")]%string /\
+  forallb (fun x => existsb (String.eqb (hd ""%string (snd x)))
+                      ["n_stream.query_ast"; "self._q_ast"; "self.query_ast"]%string) TablesStream.operator_nodes = true.
+Proof. repeat split; reflexivity. Qed.
 
 (* non-vacuity: in hist1 (two datasets, branching, empty wrappers from MetaData and from callbacks, query
    metadata, terminals, three interleaved value calls) stream 2 exists after 3 operations, shares its parent's
